@@ -481,6 +481,17 @@ def cases(rng, tier, shard, nshards):
             yield EXPANDS, {"x": [svc + ":" + name[: max(1, len(name) // 2)] + "*", a], "na": False}
             yield STMT, {"effect": "Allow", "action": [a], "notaction": None}
             yield STMT, {"effect": "Allow", "action": svc + ":" + name[:3] + "*", "notaction": None}
+    if shard == 0:
+        # one policy, several statements whose Action lists have the same text when glued together: ["a,b"] (one pattern that contains
+        # the separator and matches nothing) and ["a", "b"]; each statement is expanded on its own, at every level of the API
+        # (seeded change C09-r7Km1: a memo per expand_actions() call keyed by the comma-joined text)
+        for sep in (",", " ", "|", ", "):
+            a, b = rng.choice([("s3:GetObject", "s3:PutObject"), ("iam:PassRole", "sts:AssumeRole")])
+            sts = [{"effect": "Allow", "action": [a + sep + b], "notaction": None}, {"effect": "Allow", "action": [a, b], "notaction": None},
+                   {"effect": "Allow", "action": a + sep + b, "notaction": None}]
+            rng.shuffle(sts)
+            yield MODEL, {"statements": sts}
+            yield ALLOWED, {"statements": sts, "single": False}
     n = {"quick": 115, "thorough": 1000}[tier]
     for k in range(n):
         r = k % 10
